@@ -1102,6 +1102,23 @@ pub fn run_case(case: &Case) -> CaseReport {
 
 pub fn main(ctx: &Ctx) -> i32 {
     if let Some(p) = &ctx.replay {
+        if read_replay::<Case>(p).is_err() {
+            if let Ok(hc) = read_replay::<crate::c10h::LCase>(p) {
+                let work = std::path::Path::new(VERIF_ROOT).join("work").join(format!("{}-replay-{}", ctx.id, std::process::id()));
+                return match crate::c10h::start_node(&work, ctx.seed) {
+                    Ok((mut cluster, target)) => {
+                        let rep = crate::c10h::run_case(&hc, &target);
+                        cluster.cleanup();
+                        std::fs::remove_dir_all(&work).ok();
+                        finish_replay(ctx, rep, p)
+                    }
+                    Err(e) => {
+                        eprintln!("cannot start the node of the black-box tier: {}", e);
+                        2
+                    }
+                };
+            }
+        }
         return match read_replay::<Case>(p) {
             Ok(c) => finish_replay(ctx, run_case(&c), p),
             Err(e) => {
@@ -1156,5 +1173,27 @@ pub fn main(ctx: &Ctx) -> i32 {
         }
         rep
     });
-    finish(ctx, &stats, fin(), fail)
+    if fail.is_some() {
+        return finish(ctx, &stats, fin(), fail);
+    }
+    // black-box tier (c10h.rs): HTTP long-polls against the shipped listener handler of a real single node
+    let work = std::path::Path::new(VERIF_ROOT).join("work").join(format!("{}-{}-{}", ctx.id, ctx.tier.name(), std::process::id()));
+    let mut f = fin();
+    f.rule.push_str(" BLACK-BOX TIER (labels H_*): generated histories (3..15 ops) against a real single node: long-polls through POST /nacos/v1/cs/configs/listener (1..3 keys, held md5 current / stale / empty, 3- and 2-field items, default namespace spelled '' or 'public', Long-Pulling-Timeout 10 s) interleaved with publishes and removes over HTTP and gRPC; a long-poll that holds a stale md5 when registered, or whose key's content changes (acknowledged) while it is pending, must be answered within 2.5 s and the answer must name that key; every owed answer is judged before the next operation, so a poll without an answer is pending for sure; polls nothing happens to are abandoned (nobody waits 9.5 s); a long-poll that ends with a transport error is a discard.");
+    let failh = match crate::c10h::start_node(&work, ctx.seed) {
+        Ok((mut cluster, target)) => {
+            let n_h = ctx.tier.pick(240u32, 4_000u32);
+            let t2 = target.clone();
+            let r = run_cases(ctx, &stats, crate::c10h::case_strategy as fn() -> _, n_h, 16, 120, move |c| crate::c10h::run_case(c, &t2));
+            cluster.cleanup();
+            r
+        }
+        Err(e) => {
+            eprintln!("C10 black-box tier: node did not start ({}); the actor tier decides alone", e);
+            stats.label("blackbox_tier_unavailable");
+            None
+        }
+    };
+    std::fs::remove_dir_all(&work).ok();
+    finish(ctx, &stats, f, failh)
 }
